@@ -226,6 +226,8 @@ def normalise(mname, tree):
         if not more:
             break
     _rename_binders_back(tree, load_reference().get('__binders__', {}).get(mname, {}), done)
+    from .canon import restore_reference_temps
+    done.extend(restore_reference_temps(mname, tree, load_reference()))
     return done
 
 
